@@ -65,6 +65,12 @@ impl Check for MerkleIndexed {
         }
         (cfg, steps)
     }
+    fn dup_ok(&self, _s: &Step) -> bool {
+        true
+    }
+    fn reorder_ok(&self) -> bool {
+        true
+    }
     fn execute(&self, cfg: &Cfg, steps: &[Step], st: &mut Stats) -> Result<(), Violation> {
         let w = W::new(1, 100, 16);
         let e = &w.e;
